@@ -273,26 +273,7 @@ def r2_offset_discipline(ctx, sym):
                   "a frame on line 3 of %s with section offsets %r ends on line %r%s, expected %d" % (
                       fname, offsets, frame.attrs.get('lineno'), '' if raised is None else ' (raises %s)' % raised.kind,
                       want), "traceback lines inside a section are section-relative")
-    # the line CPython reports can lie beyond the list of lines pedal split for that file (lone CR / form feed are
-    # line breaks for CPython, not for str.split): looking the text up must not raise, whichever list is shorter
-    # (scenarios keep to what the callers construct: the main file's list is one object under both names)
-    for fname, offsets, main_lines, file_lines, lineno in (
-            ('answer.py', {}, ['m1', 'm2'], ['m1', 'm2'], 4),
-            ('answer.py', {'answer.py': 3}, ['m1', 'm2'], ['m1', 'm2'], 4),
-            ('helper.py', {}, ['m1'], ['h1', 'h2', 'h3'], 3)):
-        frame = Obj('frame', filename=fname, lineno=lineno, _line='old', _lines='old', line='old', __open__=True)
-        me = symexec.self_obj(ux, 'ExpandedTraceback', line_offsets=offsets, original_code_lines=list(main_lines),
-                              student_files={fname: list(file_lines), 'answer.py': list(main_lines)}
-                              if fname != 'answer.py' else {'answer.py': list(main_lines)})
-        fd = symexec.new_fd(sym, ux, calls={'len': len})
-        _, raised = symexec.run(fd, fix, [frame], bound_self=me, what='ExpandedTraceback._fix_frame_line')
-        ctx.check(raised is None, 'R2', 'traceback:_fix_frame_line:bounds[%s,line %d of %d/%d]' % (
-            fname, lineno, len(file_lines), len(main_lines)), ux, fix,
-                  "a frame on line %d of %s (pedal split that file into %d line(s), the main file into %d) makes "
-                  "_fix_frame_line raise %s: the bounds check and the lookup use different lists" % (
-                      lineno, fname, len(file_lines), len(main_lines), raised.kind if raised is not None else ''),
-                  "a helper file with lone-CR line endings and an error CPython reports past the LF-split line count: "
-                  "IndexError escapes while the failure is being recorded")
+    fix_frame_line_bounds_rule(ctx, sym, 'R2')
     bt = ux.func('ExpandedTraceback.build_traceback')
     ctx.analysed_function(ux, bt)
     rec = symexec.Recorder()
@@ -314,6 +295,35 @@ def r2_offset_discipline(ctx, sym):
     traceback_line_rule(ctx, sym, 'R2')
     # sandbox: _capture_exception executed abstractly with marker objects
     sandbox_capture_rule(ctx, sym, 'R2')
+
+
+def fix_frame_line_bounds_rule(ctx, sym, rule):
+    """ExpandedTraceback._fix_frame_line executed abstractly for frames whose line lies beyond the lines pedal split for
+    that file: looking the text up must not raise."""
+    from .. import symexec
+    ux = ctx.repo.module(UEXC)
+    fix = ux.func('ExpandedTraceback._fix_frame_line')
+    ctx.analysed_function(ux, fix)
+    # the line CPython reports can lie beyond the list of lines pedal split for that file (lone CR / form feed are
+    # line breaks for CPython, not for str.split): looking the text up must not raise, whichever list is shorter
+    # (scenarios keep to what the callers construct: the main file's list is one object under both names)
+    for fname, offsets, main_lines, file_lines, lineno in (
+            ('answer.py', {}, ['m1', 'm2'], ['m1', 'm2'], 4),
+            ('answer.py', {'answer.py': 3}, ['m1', 'm2'], ['m1', 'm2'], 4),
+            ('helper.py', {}, ['m1'], ['h1', 'h2', 'h3'], 3)):
+        frame = Obj('frame', filename=fname, lineno=lineno, _line='old', _lines='old', line='old', __open__=True)
+        me = symexec.self_obj(ux, 'ExpandedTraceback', line_offsets=offsets, original_code_lines=list(main_lines),
+                              student_files={fname: list(file_lines), 'answer.py': list(main_lines)}
+                              if fname != 'answer.py' else {'answer.py': list(main_lines)})
+        fd = symexec.new_fd(sym, ux, calls={'len': len})
+        _, raised = symexec.run(fd, fix, [frame], bound_self=me, what='ExpandedTraceback._fix_frame_line')
+        ctx.check(raised is None, rule, 'traceback:_fix_frame_line:bounds[%s,line %d of %d/%d]' % (
+            fname, lineno, len(file_lines), len(main_lines)), ux, fix,
+                  "a frame on line %d of %s (pedal split that file into %d line(s), the main file into %d) makes "
+                  "_fix_frame_line raise %s: the bounds check and the lookup use different lists" % (
+                      lineno, fname, len(file_lines), len(main_lines), raised.kind if raised is not None else ''),
+                  "a helper file with lone-CR line endings and an error CPython reports past the LF-split line count: "
+                  "IndexError escapes while the failure is being recorded")
 
 
 def sandbox_capture_rule(ctx, sym, rule):
